@@ -69,7 +69,7 @@ type runner struct {
 	maxState int
 }
 
-func traceLines(evs []Ev, cap int, variant string, quiet bool) []string {
+func traceLines(evs []Ev, cap int, variant string, quiet bool, prompt []int) []string {
 	fixed := 1
 	if variant == "orig" {
 		fixed = 0
@@ -79,7 +79,11 @@ func traceLines(evs []Ev, cap int, variant string, quiet bool) []string {
 		lines = append(lines, e.Line())
 	}
 	if quiet {
-		lines = append(lines, "quiet")
+		ps := make([]string, len(prompt))
+		for i, p := range prompt {
+			ps[i] = strconv.Itoa(p)
+		}
+		lines = append(lines, "quiet prompt="+strings.Join(ps, ","))
 	}
 	return lines
 }
@@ -90,7 +94,9 @@ func (r *runner) eval(c Case) []Problem {
 	}
 	if os.Getenv("C10_DEBUG") != "" {
 		t0 := time.Now()
-		defer func() { fmt.Fprintf(os.Stderr, "%8.1fms %s %s\n", float64(time.Since(t0).Microseconds())/1000, c.Family, c.Name) }()
+		defer func() {
+			fmt.Fprintf(os.Stderr, "%8.1fms %s %s\n", float64(time.Since(t0).Microseconds())/1000, c.Family, c.Name)
+		}()
 	}
 	tries := c.Tries
 	if tries < 1 {
@@ -159,8 +165,8 @@ func (r *runner) eval(c Case) []Problem {
 	}
 	nontrivial := recvs > 0 && len(o.Readers) > 0
 	key := c.Key()
-	if c.Family == "random" {
-		key = fmt.Sprintf("random:%x", h.Sum64())
+	if strings.HasPrefix(c.Family, "random") {
+		key = fmt.Sprintf("%s:%x", c.Family, h.Sum64())
 	}
 	r.res.Count(key, nontrivial)
 	r.res.Hit("family:" + c.Family)
@@ -195,7 +201,13 @@ func (r *runner) eval(c Case) []Problem {
 		r.res.Violate(p.FindingID, what, c)
 	}
 	quiet := len(o.Stuck) == 0 && parks == 0 && len(o.Panics) == 0
-	lines := traceLines(o.Evs, r.cap, r.variant, quiet)
+	var prompt []int
+	for i, k := range o.Readers {
+		if k == "prompt" && o.Returned[i] {
+			prompt = append(prompt, i)
+		}
+	}
+	lines := traceLines(o.Evs, r.cap, r.variant, quiet, prompt)
 	if nontrivial && len(r.res.Samples) < 8 && (r.res.Evaluations%23 == 1 || len(r.res.Samples) < 2) {
 		ls := lines
 		if len(ls) > 40 {
@@ -336,6 +348,17 @@ func main() {
 	for i := 0; i < n; i++ {
 		r.eval(randomCase(rnd.Fork()))
 	}
-	res.Note(fmt.Sprintf("buffer capacity read from the source: %d; departure/backpressure/slow cases: %d; forced: %d; random: %d; largest model state set: %d",
-		cap, len(departureCases(cap)), len(forcedCases(thorough || fl.Search)), n, r.maxState))
+	// 4. random histories behind a subscriber that never reads with a full buffer
+	nd := 12
+	if thorough {
+		nd = 120
+	}
+	if fl.Search {
+		nd *= 4
+	}
+	for i := 0; i < nd; i++ {
+		r.eval(deepRandomCase(rnd.Fork(), cap))
+	}
+	res.Note(fmt.Sprintf("buffer capacity read from the source: %d; departure/backpressure/slow cases: %d; forced: %d; random: %d + %d deep; largest model state set: %d",
+		cap, len(departureCases(cap)), len(forcedCases(thorough || fl.Search)), n, nd, r.maxState))
 }
